@@ -14,6 +14,9 @@ FEEDSD = ("feeds", "disk", 8, 80, 25, 50)
 MULTI = ("multi", "mem", 15, 150, 25, 50)
 MULTID = ("multi", "disk", 5, 50, 25, 50)
 
+CLOCK = ("clock", "mem", 30, 300, 40, 80)
+CLOCKD = ("clock", "disk", 15, 150, 40, 80)
+
 ROW = ["row", "row.v", "row.cas", "row.exp", "row.json", "row.x", "row.tomb", "row.rev"]
 
 PROPS = {
@@ -22,6 +25,9 @@ PROPS = {
     "C02": dict(modules=["Rosmar.Properties.C02"], slices=[KV, KVD],
                 proj=P(rb=ROW, results=True, ops={"wcas", "remove", "wwx", "wtx", "updx", "rmx", "uxdb", "swm", "dwm", "update", "wuwx"}),
                 what="results of CAS-conditional writes and the row before/after"),
+    "C04": dict(modules=["Rosmar.Properties.C04"], slices=[CLOCK, CLOCKD, KV],
+                proj=P(rb=["row", "row.cas"], results=True, ops={"draw", "restart", "lastcas", "wcas", "remove", "touch", "setx", "updx", "wwx", "wtx", "wrx", "uxdb", "update", "wuwx"}),
+                what="every CAS handed out under adversarial clock scripts, draws by other buckets, close/reopen with a forgetful clock"),
     "C05": dict(modules=["Rosmar.Properties.C05"], slices=[KV, FEEDS, MULTI],
                 proj=P(rb=["row", "row.v", "row.tomb", "row.x", "row.exp", "gr", "ex", "gwx"], ev=["k", "op", "cas"], results=True),
                 what="tombstone flag, body, xattrs, expiry, reads, feed opcodes"),
